@@ -1,7 +1,7 @@
 #!/venv/bin/python
 """Global mutation survey: which first-order mutants of the code the checks anchor on are noticed by NO check?
 
-usage: tools/mutation_global.py [--max N] [--only substring]
+usage: tools/mutation_global.py [--max N] [--only substring] [--all]
 
 The anchor functions of all 19 checks (coverage.anchor_functions of the evidence files, i.e. the functions the rules asked for by
 name on the last run on /repo) are pooled; every mutant of such a function (same operators as tools/mutation_survey.py) is applied to a
@@ -54,6 +54,9 @@ def main():
                             if isinstance(s, ast.FunctionDef):
                                 index[f"{mod}.{st.name}.{s.name}"] = (path, s)
     jobs = []
+    if "--all" in sys.argv:
+        # a mutant no anchoring check notices is also shown to every other check (rules reach functions through the call graph, not only by name)
+        by_fn = {q: ps + [p for p in PROPS if p not in ps] for q, ps in by_fn.items()}
     for q, props in sorted(by_fn.items()):
         if q not in index or (only and only not in q):
             continue
